@@ -812,6 +812,63 @@ def run(ctx):
                               f"(blocks up to 12 must be computed exactly)", {"kind": "inf_retis", "W": W, "locks": locks, "offset": 1, "max_abs_err": worst}, True)
     stats["big_blocks_vs_float_glynn"] = big_cases
 
+    # ------------------------------------------------------------------ E2: non-uniform blocks of more than 12 paths go to the
+    # Monte-Carlo random_prob: outside the exactness claim, but the consequences the statement draws must still hold exactly
+    # (doubly stochastic: every sampled state is an assignment; zero wherever the weight is zero: such assignments have
+    # weight zero) and the estimate must be near the permanent ratios (loose statistical bound, 10 000 sweeps)
+    mc_cases = 0
+    for m in (13, 14):
+        for rep in range(1 if quick else 3):
+            n = m + 2
+            ks = sorted(min(m, r + 2 + rng.randint(0, 3)) for r in range(m))
+            ks[-1] = ks[-2] = m
+            W = [[0] * n for _ in range(n)]
+            W[0][0] = 1
+            for r in range(1, m + 1):
+                for c in range(1, ks[r - 1] + 1):
+                    W[r][c] = rng.randint(1, 8)
+            order = list(range(1, m + 1))
+            rng.shuffle(order)
+            W = [W[0]] + [W[i] for i in order] + [W[n - 1]]
+            locks = [0] * (n - 1) + [1]
+            st_mc = mk_state(n)
+            st_mc.rgen = np.random.default_rng(rng.randrange(10 ** 6))     # random_prob draws from the scheduler's generator
+            P, exc = real_inf(st_mc, W, locks)
+            mc_cases += 1
+            ctx.count(("mc_block", m, rep), nontrivial=True)
+            ctx.dist(f"mc_block:{m}")
+            payload = {"kind": "inf_retis", "W": W, "locks": locks, "offset": 1, "case": "Monte-Carlo block"}
+            if P is None:
+                ctx.violation(f"C02 statement fails on the implementation: inf_retis raised {exc} on a {m}x{m} weighted staircase block", payload, True)
+                continue
+            Pf = np.array([[float(x) for x in row] for row in P])
+            Wf = np.array(W, dtype=float)
+            bad0 = [(a, b, Pf[a][b]) for a in range(n) for b in range(n) if Wf[a][b] == 0 and Pf[a][b] != 0]
+            if bad0:
+                ctx.violation(f"C02 statement fails on the implementation: P is not zero where the weight is zero on a {m}x{m} block "
+                              f"({len(bad0)} cells, e.g. P[{bad0[0][0]}][{bad0[0][1]}] = {bad0[0][2]:.4f})", dict(payload, cells=bad0[:10]), True)
+                continue
+            rs = np.abs(Pf[:n - 1, :n - 1].sum(axis=1) - 1).max()
+            cs = np.abs(Pf[:n - 1, :n - 1].sum(axis=0) - 1).max()
+            if rs > 1e-9 or cs > 1e-9 or Pf.min() < 0:
+                ctx.violation(f"C02 statement fails on the implementation: P of a {m}x{m} block is not doubly stochastic "
+                              f"(row error {rs:.2e}, column error {cs:.2e}, min {Pf.min():.2e})", payload, True)
+                continue
+            sub = Wf[1:m + 1, 1:m + 1]
+            tot = perm_float(sub)
+            worst = 0.0
+            for a in range(m):
+                for b in range(m):
+                    if sub[a, b] == 0:
+                        continue
+                    minor = np.delete(np.delete(sub, a, axis=0), b, axis=1)
+                    worst = max(worst, abs(Pf[a + 1][b + 1] - sub[a, b] * perm_float(minor) / tot))
+            stats[f"mc_block_{m}_max_abs_err"] = max(stats.get(f"mc_block_{m}_max_abs_err", 0.0), round(worst, 4))
+            if worst > 0.4:
+                ctx.violation(f"C02 statement fails on the implementation: the Monte-Carlo estimate for a {m}x{m} block is {worst:.2f} away from the "
+                              f"permanent ratios (10 000 sweeps give about 0.1)", dict(payload, max_abs_err=worst), True)
+    stats["mc_blocks"] = mc_cases
+
     # ------------------------------------------------------------------ F: the P every pick of the real scheduler uses (system level)
     import repex_runs as RR
     import sysharness as H
